@@ -130,9 +130,10 @@ theorem followerAppend_extend (cfg : Conf) (s : Node) (src : Nat) {ff : Nat} (hn
       s'.log = s.log ++ es ∧ s'.recvBuf = s.recvBuf ∧ ackNext o = some (ff + s.log.length + es.length) := by
   have hlen1 : 1 ≤ s.log.length := List.length_pos_iff.mpr hne
   have hnum : ff + s.log.length - 1 + es.length + 1 = ff + s.log.length + es.length := by omega
-  unfold followerAppend
+  unfold followerAppend faChunk
   simp only [getEntries_last hne h hpe, Option.map_some, Option.getD_some, ne_eq, not_true_eq_false, if_false]
-  simp only [matchedCount_nil, List.drop_zero, List.drop_nil, not_true_eq_false, false_and, if_false]
+  unfold faMerge
+  simp only [matchedCount_nil, List.drop_zero, List.drop_nil, ne_eq, not_true_eq_false, false_and, if_false]
   by_cases hd : cfg.dynMember
   · simp only [hd, if_true]
     obtain ⟨⟨s3, o2⟩, ha⟩ := applyChanges_ok false es (s := { s with log := s.log ++ es }) (by simp [hne])
@@ -233,7 +234,7 @@ theorem followerRunA_process (cfg : Conf) (src : Nat) (prev : Option (Nat × Nat
     rw [followerRunA_cons]
     have hfa : followerAppend cfg s src { prev := prev, chunk := some (Label.process, d) } =
         ({ s with recvBuf := some (b ++ d) }, .ok [Out.send src (.nextNodeIdx (x + 1) false false s.term)]) := by
-      unfold followerAppend
+      unfold followerAppend faChunk
       simp [recvChunk, hb, hx]
     rw [hfa]
     simp only []
@@ -258,7 +259,7 @@ theorem followerRunA_chunked (cfg : Conf) (src : Nat) (s : Node) {ff : Nat} (hne
   rw [followerRunA_cons]
   have hstart : followerAppend cfg s src { prev := some (ff + s.log.length - 1, pe.term), chunk := some (Label.start, d0) } =
       ({ s with recvBuf := some d0 }, .ok [Out.send src (.nextNodeIdx (x + 1) false false s.term)]) := by
-    unfold followerAppend
+    unfold followerAppend faChunk
     simp [recvChunk, hx]
   rw [hstart]
   simp only []
@@ -277,7 +278,7 @@ theorem followerRunA_chunked (cfg : Conf) (src : Nat) (s : Node) {ff : Nat} (hne
     obtain ⟨s', o, hfa, hlog, hbuf, hack⟩ := hext
     refine ⟨s', o, ?_, hlog, hbuf, by simpa using hack⟩
     rw [← hfa]
-    unfold followerAppend
+    unfold followerAppend faChunk
     simp only [recvChunk, hbytes, unpickle_pickle e (by omega)]
   obtain ⟨s', o, hfa, hlog, hbuf, hack⟩ := hfin
   rw [hfa]
